@@ -8,6 +8,7 @@ import (
 	"io"
 	"math/rand"
 	"net"
+	"path"
 	"reflect"
 	"runtime"
 	"sort"
@@ -1148,11 +1149,123 @@ func visAllowed(allow []string, user string) bool {
 	return lo.Contains(allow, user) || lo.Contains(allow, "*")
 }
 
+// Allow lists as a class (printable entries: a list also travels as JSON in NewProxy): 1-4 distinct names; optionally
+// "" , "*" (anywhere: first, in the middle, last), an entry that equals another one up to case / surrounding white
+// space, a near-wildcard ("**", "* ", "al*"); then some entries repeated (next to each other or apart, once or several
+// times); finally the whole list permuted.  What `allowed` means does not depend on order or multiplicity
+// (C08.allowed_perm_dedup), the code under test is free to store the list in any form.
+func visGenAllow(rng *rand.Rand) []string {
+	base := []string{"alice", "bob", "carol", "dave"}
+	perm := rng.Perm(len(base))
+	l := []string{}
+	for i, k := 0, 1+rng.Intn(4); i < k; i++ {
+		l = append(l, base[perm[i]])
+	}
+	insert := func(x string) {
+		at := rng.Intn(len(l) + 1)
+		l = append(l[:at:at], append([]string{x}, l[at:]...)...)
+	}
+	switch rng.Intn(10) {
+	case 0:
+		insert("")
+	case 1, 2:
+		insert("*")
+	case 3:
+		insert(visVariant(rng, pick(rng, l)))
+	case 4, 6, 7:
+		// something that looks like a pattern for a name that is NOT listed ("al*", "*ice", "a?ice", "**", "* ")
+		insert(visPattern(rng, base[perm[len(base)-1]]))
+	case 5:
+		insert("")
+		insert("*")
+	}
+	if rng.Intn(2) == 0 {
+		for k := 1 + rng.Intn(3); k > 0; k-- {
+			insert(pick(rng, l))
+		}
+	}
+	rng.Shuffle(len(l), func(i, j int) { l[i], l[j] = l[j], l[i] })
+	return l
+}
+
+// an entry that a pattern matcher would take for `name` (or for everybody), but that is not the wildcard "*"
+func visPattern(rng *rand.Rand, name string) string {
+	switch rng.Intn(7) {
+	case 0:
+		return name[:1+rng.Intn(len(name)-1)] + "*"
+	case 1:
+		return "*" + name[1+rng.Intn(len(name)-1):]
+	case 2:
+		return name[:1] + "?" + name[2:]
+	case 3:
+		return "**"
+	case 4:
+		return pick(rng, []string{"* ", " *", "*\t"})
+	case 5:
+		return ".*"
+	}
+	return name + "*"
+}
+
+// a string that is equal to e up to case / white space but not byte for byte
+func visVariant(rng *rand.Rand, e string) string {
+	switch rng.Intn(6) {
+	case 0:
+		if u := strings.ToUpper(e); u != e {
+			return u
+		}
+	case 1:
+		if len(e) > 0 && e[0] >= 'a' && e[0] <= 'z' {
+			return string(e[0]-32) + e[1:]
+		}
+	case 2:
+		return " " + e
+	case 3:
+		return e + "\t"
+	case 4:
+		if len(e) > 1 {
+			return e[:len(e)-1] // a proper prefix
+		}
+	}
+	return e + " "
+}
+
+// The visitors a list is probed with: nobody ("": no run id / a client that logged in without user), the owner's
+// user, every listed entry (also "*" and "" as a user name), entries up to case / white space, unlisted users.
+func visProbeUsers(rng *rand.Rand, allow []string, owner string) []string {
+	us := []string{"", owner}
+	us = append(us, lo.Uniq(allow)...)
+	for _, e := range lo.Uniq(allow) {
+		if rng.Intn(3) == 0 {
+			us = append(us, visVariant(rng, e))
+		}
+	}
+	// names a pattern-like entry would stand for if entries were patterns
+	for _, e := range allow {
+		if e != "*" && strings.ContainsAny(e, "*?") {
+			for _, nm := range []string{"alice", "bob", "carol", "dave"} {
+				if ok, _ := path.Match(strings.TrimSpace(e), nm); ok && rng.Intn(4) > 0 {
+					us = append(us, nm)
+				}
+			}
+		}
+	}
+	us = append(us, "mallory", pick(rng, []string{"alice", "bob", "carol", "dave", "*", " ", "Mallory"}))
+	return lo.Uniq(us)
+}
+
 func visGen(rng *rand.Rand, n int, emit func(string)) {
 	names := []string{"p1", "p2", "p3", "q"}
 	sks := []string{"s1", "s", "s1x", "", "k\xff"}
 	users := []string{"", "alice", "bob", "carol", "*"}
-	allows := [][]string{nil, {"alice"}, {"alice", "bob"}, {"*"}, {"bob", "*"}, {""}, {"carol", "alice"}}
+	fixedAllows := [][]string{nil, {"alice"}, {"alice", "bob"}, {"*"}, {"bob", "*"}, {""}, {"carol", "alice"}}
+	// half of the lists from the fixed shapes, half from the class
+	allowsPick := func() []string {
+		if rng.Intn(2) == 0 {
+			return pick(rng, fixedAllows)
+		}
+		return visGenAllow(rng)
+	}
 	tss := []int64{0, 2, 7, 12, -5, 1700000000, 112}
 	ec := []string{"00", "01", "10", "11"}
 	count := 0
@@ -1205,7 +1318,7 @@ func visGen(rng *rand.Rand, n int, emit func(string)) {
 
 	for count < n {
 		out("reset")
-		if rng.Intn(5) < 3 {
+		if rng.Intn(2) == 0 {
 			// ------------------------------------------------ layer A episode
 			lst := map[string]*visGenPx{}
 			nat := map[string]*visGenPx{}
@@ -1272,6 +1385,8 @@ func visGen(rng *rand.Rand, n int, emit func(string)) {
 					sk = p.sk
 					if (likelyGood || rng.Intn(3) > 0) && len(p.allow) > 0 {
 						user = pick(rng, p.allow)
+					} else if rng.Intn(2) == 0 {
+						user = pick(rng, visProbeUsers(rng, p.allow, pick(rng, users)))
 					}
 				}
 				good := rng.Intn(4) > 0
@@ -1299,6 +1414,23 @@ func visGen(rng *rand.Rand, n int, emit func(string)) {
 					}
 				}
 			}
+			// a list probed through the real NewConn: every kind of visitor (nobody, the owner's user, each listed entry,
+			// entries up to case / white space, unlisted users), each holding the key
+			sweep := func(name string) {
+				p := lst[name]
+				if p == nil || len(pend) > 0 || len(flights) > 0 || len(qids[name]) > 60 {
+					return
+				}
+				ts := pick(rng, tss)
+				for _, u := range visProbeUsers(rng, p.allow, pick(rng, users)) {
+					connID++
+					sg := sign(p.sk, ts, rng.Intn(12) > 0)
+					out(fmt.Sprintf("conn %s %d %s %s %d %s", hx(name), ts, hx(sg), hx(u), connID, pick(rng, ec)))
+					if sg == util.GetAuthKey(p.sk, ts) && visAllowed(p.allow, u) && !closed[name] {
+						qids[name] = append(qids[name], connID)
+					}
+				}
+			}
 			vend := func(k int) {
 				f := flights[k]
 				flights = append(flights[:k:k], flights[k+1:]...)
@@ -1315,7 +1447,7 @@ func visGen(rng *rand.Rand, n int, emit func(string)) {
 				}
 			}
 			otherCfg := func(name string) (string, []string) { // a key and a list that differ from the registered ones
-				sk, al := pick(rng, sks), pick(rng, allows)
+				sk, al := pick(rng, sks), allowsPick()
 				if p := lst[name]; p != nil {
 					for k := 0; k < 4 && sk == p.sk; k++ {
 						sk = pick(rng, sks)
@@ -1348,7 +1480,7 @@ func visGen(rng *rand.Rand, n int, emit func(string)) {
 			}
 			flightScenario := func(name string) {
 				if lst[name] == nil && rng.Intn(5) > 0 && len(flights) == 0 {
-					listen(name, pick(rng, sks), pick(rng, allows))
+					listen(name, pick(rng, sks), allowsPick())
 				}
 				for k := 1 + rng.Intn(2); k > 0; k-- {
 					nm := name
@@ -1392,9 +1524,12 @@ func visGen(rng *rand.Rand, n int, emit func(string)) {
 				case r < 4:
 					out(fmt.Sprintf("key %s %d", hx(pick(rng, sks)), pick(rng, tss)))
 				case r < 17:
-					listen(name, pick(rng, sks), pick(rng, allows))
+					listen(name, pick(rng, sks), allowsPick())
+					if rng.Intn(4) == 0 {
+						sweep(name)
+					}
 				case r < 24:
-					sk, al := pick(rng, sks), pick(rng, allows)
+					sk, al := pick(rng, sks), allowsPick()
 					out(fmt.Sprintf("nlisten %s %s %s", hx(name), hx(sk), visList(al)))
 					if nat[name] == nil {
 						nat[name] = &visGenPx{sk: sk, allow: al}
@@ -1417,8 +1552,10 @@ func visGen(rng *rand.Rand, n int, emit func(string)) {
 					} else {
 						out(fmt.Sprintf("echo %d", 1+rng.Intn(connID+2)))
 					}
-				case r < 70:
+				case r < 66:
 					visit("conn", name, false)
+				case r < 70:
+					sweep(name)
 				case r < 82:
 					flightScenario(name)
 				default:
@@ -1430,8 +1567,18 @@ func visGen(rng *rand.Rand, n int, emit func(string)) {
 						sk = p.sk
 						if rng.Intn(3) == 0 && len(p.allow) > 0 {
 							user = pick(rng, p.allow)
+						} else if rng.Intn(3) == 0 {
+							user = pick(rng, visProbeUsers(rng, p.allow, pick(rng, users)))
 						}
 						ua = visAllowed(p.allow, user)
+					}
+					if p := nat[name]; p != nil && rng.Intn(3) == 0 {
+						// the list probed through the real HandleVisitor (pre-check and request proper)
+						for _, u := range visProbeUsers(rng, p.allow, pick(rng, users)) {
+							out(fmt.Sprintf("natv %s %d %s %s pc=%d ua=%d", hx(name), ts, hx(sign(p.sk, ts, rng.Intn(12) > 0)), hx(u),
+								rng.Intn(2), lo.Ternary(visAllowed(p.allow, u), 1, 0)))
+						}
+						break
 					}
 					sg := sign(sk, ts, rng.Intn(4) > 0)
 					if rng.Intn(6) == 0 {
@@ -1453,6 +1600,15 @@ func visGen(rng *rand.Rand, n int, emit func(string)) {
 		busers := []string{"alice", "bob", "", "alice", "carol", "*"}
 		ballows := [][]string{nil, nil, {"alice"}, {"alice", "bob"}, {"*"}, {"bob"}, {""}}
 		bsks := []string{"s1", "s", "s1x", ""}
+		ballowsPick := func() []string {
+			switch rng.Intn(8) {
+			case 0, 1:
+				return nil // none configured: the default list
+			case 2, 3, 4:
+				return pick(rng, ballows)
+			}
+			return visGenAllow(rng)
+		}
 		// a login under rid as user u; if the run id is live this is a re-login: frps replaces the control that is
 		// registered under it (its proxies are closed), the run id stands for u from now on
 		loginAs := func(rid, u string) {
@@ -1508,7 +1664,7 @@ func visGen(rng *rand.Rand, n int, emit func(string)) {
 				name = pick(rng, names[:3])
 				if px[name] == nil {
 					kind := pick(rng, []string{"stcp", "sudp"})
-					sk, al := pick(rng, bsks), pick(rng, ballows)
+					sk, al := pick(rng, bsks), ballowsPick()
 					out(fmt.Sprintf("sreg %s %s %s %s %s %s", hx(owner), kind, hx(name), hx(sk), visList(al), pick(rng, ec)))
 					eff := al
 					if len(eff) == 0 {
@@ -1562,6 +1718,73 @@ func visGen(rng *rand.Rand, n int, emit func(string)) {
 				logout(r)
 			}
 		}
+		// An allow list that arrived in a NewProxy message (or the default list of a proxy that configured none), probed
+		// through the real frps: every kind of visitor holding the key — no run id, a client that logged in without user,
+		// the owner's own run id, clients logged in as each listed entry, as an entry up to case / white space, as an
+		// unlisted user; stream proxies by NewVisitorConn, xtcp proxies by NatHoleVisitor (pre-check and request proper).
+		listProbe := func() {
+			owner := pick(rng, rids[:2])
+			if _, live := sess[owner]; !live {
+				loginAs(owner, pick(rng, busers))
+			} else if rng.Intn(4) == 0 {
+				loginAs(owner, pick(rng, []string{"", "", "*", "alice"})) // an owner that configured no user (or a peculiar one)
+			}
+			name := pick(rng, names[:3])
+			if p := px[name]; p != nil {
+				if _, live := sess[p.owner]; !live {
+					return
+				}
+				out(fmt.Sprintf("sclose %s %s", hx(p.owner), hx(name)))
+				delete(px, name)
+			}
+			kind := pick(rng, []string{"stcp", "sudp", "stcp", "xtcp"})
+			sk, al := pick(rng, bsks), ballowsPick()
+			if rng.Intn(3) == 0 {
+				al = nil // default list = the owner's user
+			}
+			out(fmt.Sprintf("sreg %s %s %s %s %s %s", hx(owner), kind, hx(name), hx(sk), visList(al), pick(rng, ec)))
+			eff := al
+			if len(eff) == 0 {
+				eff = []string{sess[owner]}
+			}
+			px[name] = &visGenPx{sk: sk, allow: eff, owner: owner, nat: kind == "xtcp"}
+			us := visProbeUsers(rng, eff, sess[owner])
+			if len(us) > 7 {
+				rng.Shuffle(len(us)-2, func(i, j int) { us[i+2], us[j+2] = us[j+2], us[i+2] }) // "" and the owner's user stay
+				us = us[:7]
+			}
+			ts := pick(rng, tss)
+			for _, u := range us {
+				if px[name] == nil {
+					break
+				}
+				claim := ""
+				switch {
+				case u == sess[owner] && rng.Intn(2) == 0:
+					claim = owner
+				case u == "" && kind != "xtcp" && rng.Intn(2) == 0:
+					// no run id at all
+				default:
+					for _, r := range rids[2:] {
+						if v, live := sess[r]; live && v == u {
+							claim = r
+						}
+					}
+					if claim == "" {
+						claim = pick(rng, rids[2:])
+						loginAs(claim, u)
+					}
+				}
+				sg := sign(sk, ts, rng.Intn(12) > 0)
+				if kind == "xtcp" {
+					out(fmt.Sprintf("snat %s %s %d %s pc=%d ua=%d", hx(claim), hx(name), ts, hx(sg), rng.Intn(2),
+						lo.Ternary(visAllowed(eff, u), 1, 0)))
+				} else {
+					connID++
+					out(fmt.Sprintf("svis %s %s %d %s %s %d", hx(claim), hx(name), ts, hx(sg), pick(rng, ec), connID))
+				}
+			}
+		}
 		loginAs("r1", pick(rng, busers))
 		loginAs("r2", pick(rng, busers))
 		steps := 14 + rng.Intn(24)
@@ -1594,7 +1817,7 @@ func visGen(rng *rand.Rand, n int, emit func(string)) {
 			rid := liveRid(pick(rng, rids))
 			r := rng.Intn(100)
 			if i < 3 {
-				r = 12 + rng.Intn(20) // start with registrations
+				r = 13 + rng.Intn(19) // start with registrations
 			}
 			if r >= 38 && r < 72 {
 				name = livePx(false, name)
@@ -1604,16 +1827,18 @@ func visGen(rng *rand.Rand, n int, emit func(string)) {
 			switch {
 			case r < 6:
 				login(rid)
-			case r < 9:
+			case r < 8:
 				handover()
-			case r < 12:
+			case r < 11:
+				listProbe()
+			case r < 13:
 				if _, live := sess[rid]; live {
 					logout(rid)
 				}
 			case r < 32:
 				if u, live := sess[rid]; live {
 					kind := pick(rng, []string{"stcp", "sudp", "xtcp", "stcp", "xtcp"})
-					sk, al := pick(rng, bsks), pick(rng, ballows)
+					sk, al := pick(rng, bsks), ballowsPick()
 					out(fmt.Sprintf("sreg %s %s %s %s %s %s", hx(rid), kind, hx(name), hx(sk), visList(al), pick(rng, ec)))
 					if px[name] == nil {
 						eff := al
